@@ -137,7 +137,8 @@ def run(job, env):
     def on_exec(prefix, results, trace, err):
         hb[0] = time.time()
         out["evals"] += 1
-        out["states"] += len(trace)
+        # nodes of the schedule tree first reached by this execution (the replayed prefix was counted before)
+        out["states"] += 1 + max(0, len(trace) - len(prefix))
         out["transitions"] += len(trace)
         npre = sum(1 for (n, c, alive) in trace if alive and c != 0)
         if npre:
